@@ -144,6 +144,18 @@ access(all) contract C {
             self.opt = r
         }
     }
+    // the same with the concrete reference type (no conversion re-wraps the reference on the way)
+    access(all) struct HolderR {
+        access(all) var ref: &R
+        access(all) var opt: &R?
+        init(_ r: &R) {
+            self.ref = r
+            self.opt = r
+        }
+    }
+    access(all) fun viaHolderR(_ h: &HolderR): &R { return h.ref }
+    access(all) fun viaArrayR(_ a: &[&R], _ i: Int): &R { return a[i] }
+    access(all) fun viaDictR(_ d: &{String: &R}, _ k: String): &R? { return d[k] }
     access(all) fun viaHolder(_ h: &Holder): &{I} { return h.ref }
     access(all) fun viaArray(_ a: &[&{I}], _ i: Int): &{I} { return a[i] }
     access(all) fun viaDict(_ d: &{String: &{I}}, _ k: String): &{I}? { return d[k] }
